@@ -10,6 +10,7 @@ package interp
 // evidence under "stubs").
 
 import (
+	"encoding/json"
 	"fmt"
 	"go/types"
 	"math"
@@ -143,6 +144,10 @@ func init() {
 		"runtime.KeepAlive":  func(fr *frame, args []value) value { return nil },
 		"runtime.SetFinalizer": func(fr *frame, args []value) value { return nil },
 		"os.Exit":            ext۰os۰Exit,
+		"(runtime.errorString).Error": func(fr *frame, args []value) value { return args[0] },
+		"encoding/json.Marshal":       ext۰json۰Marshal,
+		"internal/abi.NoEscape": func(fr *frame, args []value) value { return args[0] },
+		"internal/abi.Escape":   func(fr *frame, args []value) value { return args[0] },
 	} {
 		externals[k] = v
 	}
@@ -1505,3 +1510,56 @@ func ext۰utf8۰ValidString(fr *frame, args []value) value {
 	}
 	return true
 }
+
+// ---------------- encoding/json (generic trees only) ----------------
+
+// toHost converts a generic tree (the values Unpack stores into interface{}) to host Go values.
+func toHost(fr *frame, v value) interface{} {
+	switch x := v.(type) {
+	case iface:
+		if x.t == nil {
+			return nil
+		}
+		return toHost(fr, x.v)
+	case bool, string, int, int8, int16, int32, int64, uint, uint8, uint16, uint32, uint64, float32, float64:
+		return x
+	case []value:
+		out := make([]interface{}, len(x))
+		for i, e := range x {
+			out[i] = toHost(fr, e)
+		}
+		return out
+	case *omap:
+		out := map[string]interface{}{}
+		for _, e := range x.liveEntries(nil) {
+			k, ok := e.k.(string)
+			if !ok {
+				fr.i.w.unsupported("host conversion of a map with non-string or symbolic keys")
+			}
+			out[k] = toHost(fr, e.v)
+		}
+		return out
+	case *value:
+		if x == nil {
+			return nil
+		}
+		return toHost(fr, *x)
+	}
+	fr.i.w.unsupported(fmt.Sprintf("host conversion of %T (symbolic or non-generic value)", v))
+	return nil
+}
+
+func ext۰json۰Marshal(fr *frame, args []value) value {
+	h := toHost(fr, args[0])
+	b, err := jsonMarshal(h)
+	if err != nil {
+		return tuple{[]value(nil), mkError(fr, err.Error())}
+	}
+	out := make([]value, len(b))
+	for i, c := range b {
+		out[i] = c
+	}
+	return tuple{out, iface{}}
+}
+
+func jsonMarshal(v interface{}) ([]byte, error) { return json.Marshal(v) }
